@@ -136,6 +136,41 @@ def run(p, report, tier):
             report.add("R17.1", f.qual, f"`{norm_stmt(n, 70)}` stores the counted matrix", f"{f.file}:{n.lineno}", ok,
                        detail="derived from sklearn's confusion_matrix of the annotator" if ok else
                        "a value that does not derive from the annotator's confusion counts is written into the result")
+    # R17.5: row normalisation keeps the summed axis; weights never live in an array of the labels' dtype
+    report.rule("R17.5", "a matrix divided by its own sum along axis 1 keeps that axis (keepdims=True), so every row is "
+                "divided by its own total; caller-supplied weights are never stored into an array that was created with "
+                "the dtype of the labels (*_like(y) without dtype)", floor=2)
+    for fn in (f, p.get_func("skactiveml.utils._aggregation", "compute_vote_vectors"),
+               p.get_func("skactiveml.utils._aggregation", "majority_vote")):
+        for n in ast.walk(fn.node):
+            if isinstance(n, ast.BinOp) and isinstance(n.op, ast.Div) and isinstance(n.right, ast.Call) \
+                    and c01.callname(n.right) == "sum":
+                kws = {k.arg: k.value for k in n.right.keywords}
+                ax = kws.get("axis")
+                if ax is None or not (isinstance(ax, ast.Constant) and ax.value in (1, -1)):
+                    continue
+                kd = kws.get("keepdims")
+                ok = isinstance(kd, ast.Constant) and kd.value is True
+                report.add("R17.5", fn.qual, f"row normalisation `{norm_stmt(n, 60)}` keeps the summed axis", f"{fn.file}:{n.lineno}", ok,
+                           detail="keepdims=True" if ok else
+                           "without keepdims the row sums are broadcast along the columns: entry (i, j) is divided by the "
+                           "total of row j")
+        like = {}
+        for n in ast.walk(fn.node):
+            if isinstance(n, ast.Assign) and isinstance(n.value, ast.Call) and c01.callname(n.value) in (
+                    "ones_like", "zeros_like", "empty_like", "full_like") and not any(k.arg == "dtype" for k in n.value.keywords) \
+                    and n.value.args and isinstance(n.value.args[0], ast.Name) and n.value.args[0].id == "y":
+                for t in n.targets:
+                    if isinstance(t, ast.Name):
+                        like[t.id] = n
+        bad = [n for n in ast.walk(fn.node) if isinstance(n, ast.Assign) and any(
+            isinstance(t, ast.Subscript) and base_name(t) in like for t in n.targets) and "w" in names_in(n.value)]
+        if "w" in fn.all_param_names():
+            report.add("R17.5", fn.qual, "weights are not stored into an array with the labels' dtype",
+                       f"{fn.file}:{(bad[0] if bad else fn.node).lineno}", not bad,
+                       detail="no such store" if not bad else
+                       f"`{norm_stmt(bad[0], 60)}` copies the weights into `{norm_stmt(like[base_name(bad[0].targets[0])], 40)}`: "
+                       "fractional weights are truncated for integer labels")
     check_vote_weights(p, report)
     # ---------------- R17.3
     h = p.get_func("skactiveml.utils._aggregation", "majority_vote")
